@@ -124,7 +124,9 @@ def verdict_direct(desc):
         _blocks_close(out, "ref_stiffness/disp", u1, us, 2 * ftol, scale_from=uf, lchar=lc)
     # 2 equilibrium invariant with the reference's K and the displacements under test; clamp
     if free_loaded:
-        out.le("equilibrium", RF.equilibrium_backward_error(nodes, A, Iy, Iz, J, E, G, f1, root, u1), TOL)
+        # (component-wise backward error: 1e-7, or 10 eps cond when bending stiffness EI/L^2 is ten and more decades below
+        # the axial stiffness EA - tiny spars - and elimination mixes the two scales)
+        out.le("equilibrium", RF.equilibrium_backward_error(nodes, A, Iy, Iz, J, E, G, f1, root, u1), max(TOL, 10.0 * EPS * kappa))
     umax = float(np.max(np.abs(uf))) or 1.0
     out.le("root_clamped", float(np.max(np.abs(u1[root]))), 1e-12 * umax)
     # 3 linearity, reciprocity
